@@ -65,6 +65,14 @@ def reparse(data):
     return p, c15lib.proj_etree(p.tree.document._element)
 
 
+_NS_HTML = core.cps(HTML)
+
+
+def _slim(t):
+    """EncodeRefs only asks whether a namespace is the HTML one (IsHtmlNs accepts None): send None for it"""
+    return dict(t, ns=tok.NONE) if t["ns"] == _NS_HTML else t
+
+
 def e2e(tokens, lab, omit, strictdoc):
     """Serialize the stream for real with output encoding `lab.label`, parse the bytes back for real.
     Returns (filter trace, record for Trace_EncodeRefs, info)."""
@@ -81,7 +89,7 @@ def e2e(tokens, lab, omit, strictdoc):
     pfail, mis = c15lib.char_facts(lab, cps)
     rec = {"bom": lab.bom, "ascii": lab.ascii, "strictdoc": strictdoc, "pfail": pfail,
            "mis": [{"c": c, "v": v, "x": x} for c, (v, x) in sorted(mis.items())],
-           "out": l1["out"], "raised": False, "encOk": False, "diff": "none", "nchunks": len(un), "chunks": []}
+           "out": [_slim(t) for t in l1["out"]], "raised": False, "encOk": False, "diff": "none", "nchunks": len(un), "chunks": []}
     info = {"label": lab.label, "omit": omit, "path": "none", "bytes": None, "err": None}
     try:
         enc = list(HTMLSerializer(omit_optional_tags=omit).serialize(iter(copy.deepcopy(tokens)), lab.label))
@@ -184,7 +192,7 @@ def text_doc(s):
     """document around one MC-exported text: as text, attribute value, RCDATA text and raw text"""
     import html
     e = html.escape(s, quote=True)
-    return "<head><title>%s</title></head><body><p title=\"%s\">%s</p><script>%s</script>" % (e, e, e, s)
+    return "<title>%s</title><p title=\"%s\">%s</p><script>%s</script>" % (e, e, e, s)
 
 
 # ------------------------------------------------------------------------------------------------ token streams for the filter alone
@@ -267,10 +275,21 @@ def cfg_er(maxlen, export, checkprop, defects):
             % (maxlen, "TRUE" if export else "FALSE", "TRUE" if checkprop else "FALSE", ",".join('"%s"' % d for d in defects)))
 
 
-def _replay_im(rec):
+def _record_lines(path):
+    """raw PrintT(ToJson(..)) lines of a finished TLC run (decoded in the workers)"""
+    with open(path, errors="replace") as f:
+        for line in f:
+            if line.startswith('"{'):
+                yield line
+
+
+def _replay_im(line):
+    rec = json.loads(json.loads(line))
     inp = [tok.unproj_token(t) for t in rec["inp"]]
     got = [tok.proj_token(t) for t in real_filter(inp, core.ucs(rec["enc"]))]
-    return got == rec["out"], got
+    ok = got == rec["out"]
+    nt = hash(json.dumps(rec["inp"])) if rec["dom"] and rec["inp"] != rec["out"] else None
+    return ok, nt, (None if ok else (rec, got))
 
 
 _LABS = {}
@@ -305,6 +324,54 @@ def _run_case(case):
 
 
 # ------------------------------------------------------------------------------------------------ the check
+def make_cases(ctx, texts, labs, pairs):
+    q = ctx.quick
+    rng = ctx.rng
+    by_label = {x.label: x for x in labs}
+    if q:
+        use = [xs[0] for xs in pairs.values()] + rng.sample(labs, 10)
+    else:
+        use = list(labs)
+    cases = []
+    # (a) MC-exported texts through the real serializer and parser
+    tl = ["ascii", "latin1", "big5", "utf-8", "utf-16", "windows-1251", "shift_jis", "iso-2022-jp"]
+    for i, s in enumerate(texts):
+        for j, lb in enumerate(tl):
+            if len(s) <= 2 or (len(s) == 3 and (i + j) % (8 if q else 3) == 0) or (len(s) > 3 and (i + 3 * j) % 32 == 0):
+                cases.append((text_doc(s), "etree", lb, bool((i + j) % 2), True, "mc-text"))
+    # (b) the harness's layouts
+    for x in use:
+        for k in range(6 if q else 10):
+            force = ["refs", "raw", "early", "mis", "strictpos", None][k % 6]
+            src, _ = layout_doc(rng, x, force)
+            tb = "dom" if k % 3 == 2 else "etree"
+            for omit in (False, True):
+                cases.append((src, tb, x.label, omit, True, "layout"))
+    # (c) padded documents
+    firsts = set(xs[0].label for xs in pairs.values())
+    for x in use:
+        if not x.ascii:
+            continue
+        big = x.label in (("utf-8", "koi8-r", "shift_jis", "windows-1252", "euc-kr", "iso-8859-2", "gbk", "iso-2022-jp") if q else firsts)
+        for n in [900, 1100] + ([10300] if big else []):
+            for di, src in enumerate(padded_docs(x, n)):
+                if q and not big and (di + n // 100 + len(cases)) % 2:
+                    continue                                     # quick: half of the templates per label, rotating
+                tb = "dom" if di == 3 else rng.choice(["etree", "dom"])
+                for omit in ((False, True) if big else (bool((di + len(cases)) % 2),)):
+                    cases.append((src, tb, x.label, omit, True, "padded-%d" % n))
+    # (d) repository inputs and soup (contexts not controlled: strictdoc = False)
+    docs = list(corpus.repo_strings())
+    rng.shuffle(docs)
+    docs = docs[:120 if q else 1500]
+    for _ in range(80 if q else 1500):
+        docs.append(corpus.soup(rng) + rng.choice(["", "é", "<p>€\U0001f600", "<script>é</script>", "<title>Я</title>"]))
+    for i, d in enumerate(docs):
+        for x in rng.sample(use, 2 if q else 3):
+            cases.append((d, "dom" if i % 2 else "etree", x.label, rng.random() < 0.5, False, "corpus"))
+    return cases
+
+
 WHAT = {
     "ser-utf16-bom-per-chunk": "encoding='utf-16': a byte order mark in front of every serializer chunk; the re-parsed tree is full of U+FEFF",
     "ser-rawtext-charref": "inexpressible character inside script/style/xmp/... is written as a character reference, which the reader does not resolve there",
@@ -358,17 +425,18 @@ def run(ctx):
         if r.violated:
             ctx.violation("theorem %s fails on the InjectMeta specification (%s/%s)" % (r.violated, mode, alpha), {"tlc": r.stdout_path})
             return
-        for batch in core.batched(tlc.iter_records(r.stdout_path), 100000):
-            res = core.parallel(_replay_im, batch)
-            for rec, (ok, got) in zip(batch, res):
+        for batch in core.batched(_record_lines(r.stdout_path), 200000):
+            res = core.parallel(_replay_im, batch, chunk=4000)
+            for ok, nt, bad in res:
                 ctx.traces += 1
-                if rec["dom"] and rec["inp"] != rec["out"]:
-                    ctx.nontriv(hash(json.dumps(rec["inp"])))
+                if nt is not None:
+                    ctx.nontriv(nt)
                 if not ok:
+                    rec, got = bad
                     ctx.violation("real inject_meta_charset filter differs from the InjectMeta machine",
                                   {"kind": "replay-filter", "enc": rec["enc"], "inp": rec["inp"], "expected": rec["out"], "got": got})
             if not shown and batch:
-                m = batch[len(batch) // 2]
+                m = json.loads(json.loads(sorted(batch)[len(batch) // 2]))
                 ctx.sample({"spec_to_code(filter)": [tok.show(t) for t in m["inp"]], "expected": [tok.show(t) for t in m["out"]]})
                 shown = True
     # ---- 2. EncodeRefs: intended design satisfies the theorems; listed deviations break them at model level
@@ -376,7 +444,7 @@ def run(ctx):
     if r.violated:
         ctx.violation("theorem %s fails on the intended EncodeRefs specification" % r.violated, {"tlc": r.stdout_path})
         return
-    texts = [core.ucs(rec["s"]) for rec in r.records]
+    texts = sorted(core.ucs(rec["s"]) for rec in r.records)      # TLC prints in worker order
     if listed:
         wit = {}
         for d in (listed if not q else [listed]):
@@ -391,48 +459,7 @@ def run(ctx):
     ctx.exhaustive = True
 
     # ---- 3. cases for the real round trip
-    rng = ctx.rng
-    by_label = {x.label: x for x in labs}
-    if q:
-        use = [xs[0] for xs in pairs.values()] + rng.sample(labs, 10)
-    else:
-        use = list(labs)
-    cases = []
-    # (a) MC-exported texts through the real serializer and parser
-    tl = ["ascii", "latin1", "big5", "utf-8", "utf-16", "windows-1251", "shift_jis", "iso-2022-jp"]
-    for i, s in enumerate(texts):
-        for j, lb in enumerate(tl):
-            if len(s) <= 2 or (i + j) % (8 if q else 3) == 0:
-                cases.append((text_doc(s), "etree", lb, bool((i + j) % 2), True, "mc-text"))
-    # (b) the harness's layouts
-    for x in use:
-        for k in range(6 if q else 10):
-            force = ["refs", "raw", "early", "mis", "strictpos", None][k % 6]
-            src, _ = layout_doc(rng, x, force)
-            tb = "dom" if k % 3 == 2 else "etree"
-            for omit in (False, True):
-                cases.append((src, tb, x.label, omit, True, "layout"))
-    # (c) padded documents
-    for x in use:
-        if not x.ascii:
-            continue
-        big = not q or x.label in ("utf-8", "koi8-r", "shift_jis", "windows-1252", "euc-kr", "iso-8859-2", "gbk", "iso-2022-jp")
-        for n in [900, 1100] + ([10300] if big else []):
-            for di, src in enumerate(padded_docs(x, n)):
-                if q and not big and (di + n // 100 + len(cases)) % 2:
-                    continue                                     # quick: half of the templates per label, rotating
-                tb = "dom" if di == 3 else rng.choice(["etree", "dom"])
-                for omit in ((False, True) if big else (bool((di + len(cases)) % 2),)):
-                    cases.append((src, tb, x.label, omit, True, "padded-%d" % n))
-    # (d) repository inputs and soup (contexts not controlled: strictdoc = False)
-    docs = list(corpus.repo_strings())
-    rng.shuffle(docs)
-    docs = docs[:120 if q else 1500]
-    for _ in range(80 if q else 1500):
-        docs.append(corpus.soup(rng) + rng.choice(["", "é", "<p>€\U0001f600", "<script>é</script>", "<title>Я</title>"]))
-    for i, d in enumerate(docs):
-        for x in rng.sample(use, 2 if q else 3):
-            cases.append((d, "dom" if i % 2 else "etree", x.label, rng.random() < 0.5, False, "corpus"))
+    cases = make_cases(ctx, texts, labs, pairs)
     ctx.notes["round_trip_cases"] = len(cases)
     ctx.notes["t_mc_s"] = round(__import__("time").time() - ctx.t0, 1)
     cases.sort(key=lambda c: (c[0], c[1]))                 # cases of one document are neighbours (parse cache); order is deterministic
@@ -440,7 +467,7 @@ def run(ctx):
 
     ctx.notes["t_roundtrips_s"] = round(__import__("time").time() - ctx.t0, 1)
     # ---- 4. judge: filter traces by Trace_InjectMeta, documents by Trace_EncodeRefs
-    im_traces, im_meta, seen = [], [], set()
+    im_traces, im_meta, seen, per_doc = [], [], set(), {}
     er_traces, er_meta = [], []
     paths = {}
     for case, res in zip(cases, results):
@@ -450,25 +477,37 @@ def run(ctx):
         if info["err"]:
             ctx.violation(info["err"], {"kind": "doc", "case": list(case)})
             continue
-        key = hash(json.dumps(l1, sort_keys=True))
-        if key not in seen:
-            seen.add(key)
-            im_traces.append(l1)
-            im_meta.append(info)
-            if l1["inp"] != l1["out"]:
-                ctx.nontriv(("im", key))
+        dk = (case[0], case[1])                              # the filter only copies the label: two labels per document
+        per_doc[dk] = per_doc.get(dk, 0) + 1
+        if per_doc[dk] <= 2 and (info["tag"] != "mc-text" or len(er_traces) % 40 == 0):   # mc-text documents share one head layout
+            key = hash(json.dumps(l1, sort_keys=True))
+            if key not in seen:
+                seen.add(key)
+                im_traces.append(l1)
+                im_meta.append(info)
+                if l1["inp"] != l1["out"]:
+                    ctx.nontriv(("im", key))
         er_traces.append(rec)
         er_meta.append((case, info))
         paths[info["path"]] = paths.get(info["path"], 0) + 1
         if rec["chunks"] or info["path"].startswith("late") or rec["raised"]:
             ctx.nontriv(("er", hash(json.dumps([rec["chunks"], info["path"], rec["raised"], info["label"]]))))
     ctx.notes["declaration_found_by"] = paths
+    ctx.notes["tree_comparison"] = {k: sum(1 for t in er_traces if t["diff"] == k) for k in ("same", "raw", "other", "none")}
+    def why(t):
+        return ("bom-per-chunk" if t["bom"] else "utf-16 without bom" if not t["ascii"] else "writer/reader codec mismatch" if t["mis"]
+                else "character beyond references" if any(0xD800 <= c <= 0xDFFF or 0x80 <= c <= 0x9F for c in t["pfail"]) else "?")
+    ctx.notes["tree_other_explained_by"] = {}
+    for t in er_traces:
+        if t["diff"] == "other":
+            ctx.notes["tree_other_explained_by"][why(t)] = ctx.notes["tree_other_explained_by"].get(why(t), 0) + 1
+    ctx.notes["documents_with_reference_or_bom_chunks"] = sum(1 for t in er_traces if t["chunks"])
     ctx.notes["raised_unicode_encode_error"] = sum(1 for t in er_traces if t["raised"])
     # filter-only streams
     encs = ["utf-8", "koi8-r", "ascii", "shift_jis", "utf-16"]
     extra = [(s, "fixture") for s in fixture_streams()]
     for _ in range(1500 if q else 30000):
-        extra.append((random_stream(rng), "random"))
+        extra.append((random_stream(ctx.rng), "random"))
     for i, (s, kind) in enumerate(extra):
         im_traces.append(filter_trace(s, encs[i % len(encs)]))
         im_meta.append({"src": kind, "tb": "-", "label": encs[i % len(encs)], "tag": kind})
